@@ -144,6 +144,7 @@ def _cases(tier, seed):
     for i in range(6):
         out.append({"k": "unsorted_names", "i": i})
     out.append({"k": "product"})
+    out.append({"k": "repeated"})
     out.sort(key=lambda c: {"unsorted_names": 0, "arrays": 1, "u3": 2, "product": 3}.get(c["k"], 4))
     return out
 
@@ -153,6 +154,35 @@ def run_case(case, R):
         from .. import produced
         return produced.run(R, ID, case["i0"], case["i1"])
     k = case["k"]
+    if k == "repeated":
+        # the same variable many times: the factor n(n-1)...(n-k+1) outgrows 8, 16 and 32 bits long before the int64 / float64
+        # coefficients do (13! = 6227020800, 100*99*98*97*96, 70000*69999, 2**20 * (2**20 - 1), 300*299*298*297 > 2**32)
+        R.state("repeated")
+        for names in (("q0",), ("q0", "q1"), ("q2", "q10")):
+            v = names[-1]
+            for e, ks in ((13, (2, 12, 13, 14)), (21, (3, 7, 8)), (100, (2, 4, 5)), (300, (3, 4)), (70000, (1, 2)), (2 ** 20, (2,)), (255, (2, 4)), (256, (2, 5))):
+                for dt in ("i8", "f8"):
+                    if dt == "f8" and e == 13:
+                        continue
+                    other = (1,) * (len(names) - 1)
+                    sp = spec(names, (2,), [(other + (e,), [1, -3]), (other + (1,), [2, 5]), ((0,) * len(names), [7, 0])], dt)
+                    p = build_checked(sp)
+                    m = model_of(sp)
+                    for kk in ks:
+                        exp = m
+                        for _ in range(kk):
+                            exp = exp.diff(v)
+                        for dname, d in (("name", v), ("symbol", numpoly.symbols(v))):
+                            judge(R, f"derivative {kk}-fold wrt {v} ({dname}) of degree {e} {dt} names {names}", lambda: numpoly.derivative(p, *([d] * kk)), exp,
+                                  ["repeated", f"order={kk}"], {"k": "repeated"})
+                        step = p
+                        for _ in range(min(kk, 3)):
+                            step = numpoly.derivative(step, v)
+                        exp3 = m
+                        for _ in range(min(kk, 3)):
+                            exp3 = exp3.diff(v)
+                        judge(R, f"derivative applied {min(kk, 3)} times wrt {v} of degree {e} {dt}", lambda: step, exp3, ["repeated"], {"k": "repeated"})
+        return
     if k == "u0":
         t = space.U0()[case["i"]]
         R.state(("u0", case["i"]))
